@@ -255,6 +255,8 @@ def plan(prop, tier):
             # every history of zero-sized-element operations (debug-only assertions of the
             # dependency live there: offset_from on zero-sized pointees)
             P.append({"fl": fl, "args": ["zst", "--depth", "4", "--shard", "0/1"], "timeout": 1800, "leaks_ok": False, "transcript": "zst-0"})
+            # set histories (one summary line with a digest of every call's outcome) and set algebra
+            P.append({"fl": fl, "args": ["sets", "--n", str(1500 if q else 10000), "--shard", "0/1"], "timeout": 1800, "leaks_ok": False, "transcript": "sets-0"})
     else:
         raise SystemExit(f"unknown property {prop}")
     if q:
